@@ -624,19 +624,28 @@ func (fc *followerController) SendSnapshot(stream proto.OxiaLogReplication_SendS
 	return closeStreamWg.Wait(fc.ctx)
 }
 
-func (fc *followerController) readSnapshotStream(stream proto.OxiaLogReplication_SendSnapshotServer, loader kv.SnapshotLoader) (int64, error) {
+// readSnapshotStream loads the chunks of a snapshot, starting with firstChunk (which
+// handleSnapshot has already received, in order to validate it before wiping anything).
+func (fc *followerController) readSnapshotStream(stream proto.OxiaLogReplication_SendSnapshotServer, loader kv.SnapshotLoader,
+	firstChunk *proto.SnapshotChunk) (int64, error) {
 	var totalSize int64
 
+	snapChunk := firstChunk
 	for {
-		snapChunk, err := stream.Recv()
-		switch {
-		case err != nil:
-			if errors.Is(err, io.EOF) {
-				return totalSize, nil
-			}
+		if snapChunk == nil {
+			var err error
+			snapChunk, err = stream.Recv()
+			if err != nil {
+				if errors.Is(err, io.EOF) {
+					return totalSize, nil
+				}
 
-			fc.closeStreamNoMutex(err)
-			return totalSize, err
+				fc.closeStreamNoMutex(err)
+				return totalSize, err
+			}
+		}
+
+		switch {
 		case snapChunk == nil:
 			return totalSize, nil
 		case fc.term != wal.InvalidTerm && snapChunk.Term != fc.term:
@@ -655,12 +664,13 @@ func (fc *followerController) readSnapshotStream(stream proto.OxiaLogReplication
 			slog.String("chunk-progress", fmt.Sprintf("%d/%d", snapChunk.ChunkIndex, snapChunk.ChunkCount)),
 			slog.Int64("term", fc.term),
 		)
-		if err = loader.AddChunk(snapChunk.Name, snapChunk.ChunkIndex, snapChunk.ChunkCount, snapChunk.Content); err != nil {
+		if err := loader.AddChunk(snapChunk.Name, snapChunk.ChunkIndex, snapChunk.ChunkCount, snapChunk.Content); err != nil {
 			fc.closeStream(err)
 			return totalSize, err
 		}
 
 		totalSize += int64(len(snapChunk.Content))
+		snapChunk = nil
 	}
 }
 
@@ -668,8 +678,24 @@ func (fc *followerController) handleSnapshot(stream proto.OxiaLogReplication_Sen
 	fc.Lock()
 	defer fc.Unlock()
 
+	// Before wiping anything, make sure the snapshot comes from the leader of our
+	// term: a late stream of a superseded leader must not be able to clear the log
+	// (and the durable term) of a node that has moved to a newer term
+	firstChunk, err := stream.Recv()
+	if err != nil {
+		if !errors.Is(err, io.EOF) {
+			fc.closeStreamNoMutex(err)
+			return
+		}
+		firstChunk = nil
+	}
+	if fc.term != wal.InvalidTerm && (firstChunk == nil || firstChunk.Term != fc.term) {
+		fc.closeStreamNoMutex(constant.ErrInvalidTerm)
+		return
+	}
+
 	// Wipe out both WAL and DB contents
-	err := fc.wal.Clear()
+	err = fc.wal.Clear()
 	if err != nil {
 		fc.closeStreamNoMutex(err)
 		return
@@ -693,7 +719,7 @@ func (fc *followerController) handleSnapshot(stream proto.OxiaLogReplication_Sen
 
 	defer loader.Close()
 
-	totalSize, err := fc.readSnapshotStream(stream, loader)
+	totalSize, err := fc.readSnapshotStream(stream, loader, firstChunk)
 	if err != nil {
 		return
 	}
